@@ -113,6 +113,12 @@ chk("C15", "vexplore+vfault",
     "Trusted: sqlite's atomic commit; only the sqlite flavour of the storage layer runs (no PostgreSQL here); outage = read timeout already elapsed + every statement fails (the device the repository's own tests use).",
     "DESIGN.md 3 C15", category="fault_enumeration")
 
+chk("C14", "vexplore",
+    "explicit-state BFS with canonical-state deduplication over attempt/tick histories on the real handlers with a counting password backend and on the real TOTP verification, under the virtual clock, against reference models (token bucket; 2-second rule and lock-out)",
+    "(a) for burst in {10,12} x rate in {1,2}/s: alphabet = login-form attempts for three users right/wrong, a basic-auth attempt on every route that a probe with a counting backend shows to reach the password backend (list in the evidence), a five-attempt burst, ticks of 400 ms / 1 s / 10 s; canonical state = bucket level; oracle on every attempt: cumulative backend invocations <= burst + rate x elapsed, an attempt the reference bucket refuses is answered 429 without lookup, at most one lookup per attempt, all entry points share one bucket. (b) alphabet = wrong guess, right guess, five wrong guesses 2 s apart, ticks 1 s / 2 s / 31 s / 1 h / 24 h; oracle: nothing is evaluated within 2 s of the previous evaluation, five consecutive evaluated failures within a minute start a lock-out during which a right code is refused, and the lock-out does not shrink from round to round (until a day without failures).",
+    "Trusted: golang.org/x/time/rate is virtualised by the same rewrite. The concurrent clause (simultaneous attempts) is exercised with the controlled scheduler in C16's harness; limiter critical sections are atomic at its granularity.",
+    "DESIGN.md 3 C14")
+
 NOT_YET = {
 }
 
